@@ -194,3 +194,8 @@ def store_mutating_calls(F, cg, b, mgr=None):
             if wf - sm.BOOKKEEPING or any(x in mgr for x in cg.reach([c.path])):
                 out.append((c.bb, c.line, "calls %s" % c.path.rsplit("::", 1)[-1]))
     return out
+
+
+def some_side(b, call):
+    """public alias: (switch block, success-side target) of an Option / Result returning call"""
+    return _some_side(b, call)
